@@ -37,6 +37,7 @@ import CtyModel.Lemmas.ConvertD08Fuel
 import CtyModel.Lemmas.ConvertD08Covers
 import CtyModel.Lemmas.ConvertD08Roundtrip
 import CtyModel.Lemmas.ConvertD08CoversColl
+import CtyModel.Lemmas.d08bUnmark
 namespace CtyModel
 namespace C08
 open Convert Ty
@@ -338,6 +339,88 @@ theorem unknownCoversAll_false : ¬ UnknownCoversAll := by
 example : Covers ⟨.number, .marked ["m"] (.unk (.num .f none none))⟩ ⟨.number, .n (.fin false 3 (-1) 53)⟩ = true := by
   decide
 
+/-! ## Marks do not influence a conversion (deep non-interference)
+
+`Value.MarksWF`: the marker layers of the value are as cty's constructors build them — never an
+empty mark set, never a marker directly inside a marker, no marker inside a set (`SetVal` moves
+them to the set).  No hypothesis on the environment, the target type (placeholders included), the
+fuel, or the depth of the value and of its marks. -/
+
+/-- **Converting commutes with `UnmarkDeep`**: if converting `v` — marked at any depth — returns `r`,
+then converting the deeply unmarked `v` (same fuel) returns the deeply unmarked `r`; and `r` again
+has well-formed marker layers (so the theorem composes). -/
+theorem convert_commutes_with_unmarkDeep (E : Env) (fuel : Nat) (v r : Value) (want : Ty)
+    (hw : v.MarksWF) (h : convert E fuel v want = .ok r) :
+    convert E fuel v.unmarkDeep want = .ok r.unmarkDeep ∧ r.MarksWF := by
+  obtain ⟨y, hy, rfl, hr⟩ := (D08B.convert_sim E fuel hw want).ok_inv h
+  exact ⟨hy, hr⟩
+
+/-- … and marks neither cause nor mask a failure: an error stays an error and a panic stays a panic
+when the marks are taken off first. -/
+theorem convert_commutes_with_unmarkDeep_failures (E : Env) (fuel : Nat) (v : Value) (want : Ty)
+    (hw : v.MarksWF) :
+    (∀ c, convert E fuel v want = .err c → ∃ c', convert E fuel v.unmarkDeep want = .err c') ∧
+    (∀ w, convert E fuel v want = .panic w → ∃ w', convert E fuel v.unmarkDeep want = .panic w') :=
+  ⟨fun _ h => (D08B.convert_sim E fuel hw want).err_inv h,
+   fun _ h => (D08B.convert_sim E fuel hw want).panic_inv h⟩
+
+/-- Conversely: if converting the deeply unmarked value returns `r0` (at some fuel), then converting
+the marked value, at any fuel at which the model finishes, returns a value whose deeply unmarked
+form is `r0` — it cannot fail, and cannot return anything else.  (The marked run needs one more unit
+of fuel per marker layer; that it finishes at all is `fuel_monotone` plus fuel adequacy.) -/
+theorem convert_commutes_with_unmarkDeep_converse (E : Env) (fuel fuel' : Nat) (v r0 : Value) (want : Ty)
+    (hw : v.MarksWF) (h0 : convert E fuel v.unmarkDeep want = .ok r0)
+    (hfin : convert E fuel' v want ≠ .unmodelled) :
+    ∃ r, convert E fuel' v want = .ok r ∧ r.unmarkDeep = r0 := by
+  have hs := D08B.convert_sim E fuel' hw want
+  have hne := hs.right_ne_unmodelled hfin
+  have h1 : convert E (max fuel fuel') v.unmarkDeep want = .ok r0 := by
+    rw [convert_mono E (Nat.le_max_left _ _) _ _ (by rw [h0]; simp), h0]
+  have h2 : convert E fuel' v.unmarkDeep want = .ok r0 := by
+    rw [← convert_mono E (Nat.le_max_right fuel fuel') _ _ hne, h1]
+  obtain ⟨x, hx, hr, _⟩ := hs.ok_inv_right hfin h2
+  exact ⟨x, hx, hr.symm⟩
+
+/-- The same for a conversion obtained from `GetConversion` / `GetConversionUnsafe`, applied to a
+value marked at any depth. -/
+theorem conversion_commutes_with_unmarkDeep (E : Env) (fuel : Nat) (uns : Bool) (inT want : Ty) (p : Plan)
+    (v r : Value) (hg : getConv E inT want uns = some p) (hw : v.MarksWF)
+    (h : apply E fuel p v = .ok r) : apply E fuel p v.unmarkDeep = .ok r.unmarkDeep ∧ r.MarksWF := by
+  obtain ⟨y, hy, rfl, hr⟩ := (D08B.getConv_sim E fuel hw hg).ok_inv h
+  exact ⟨hy, hr⟩
+
+/-- Every conversion `getConversionKnown` builds, in either mode and for every pair of types, holds as
+element / attribute conversions only "no conversion" or closures of `getConversion` (which take the
+marks off before they look at the value) — the structural reason for the theorems above. -/
+theorem plans_are_shaped (E : Env) (inT want : Ty) (uns : Bool) (p : Plan)
+    (hg : getConv E inT want uns = some p) : D08B.shaped p = true :=
+  (D08B.getConv_shaped hg).1
+
+/-- Where the marks of the result come from and where the top-level ones go: every mark at any depth of
+the result is a mark of the input (no invention), and every top-level mark of the input is a
+top-level mark of the result. -/
+theorem convert_marks_of_result (E : Env) (fuel : Nat) (v r : Value) (want : Ty)
+    (h : convert E fuel v want = .ok r) :
+    (∀ m ∈ r.marksDeep, m ∈ v.marksDeep) ∧ (∀ m ∈ v.marks, m ∈ r.marks) :=
+  ⟨D04C.convert_noinv E fuel v want r h, fun m hm => D04C.convert_top_kept E fuel v want r h m hm⟩
+
+/-- the hypotheses at work: an object with a marked list holding a marked
+element, converted to an object type with a set attribute — the element's mark moves up to the set,
+the list's mark stays, and taking all marks off first gives the result with all marks off -/
+def markedSample : Value :=
+  ⟨.object ["a", "b"] [.list .bool, .string] [false, false],
+   .marked ["top"] (.smap ["a", "b"] [.marked ["l"] (.seq [.b true, .marked ["e"] (.b false)]), .s "x"])⟩
+
+example : markedSample.MarksWF := ⟨by decide, by decide⟩
+example : convert Env.simple 12 markedSample (.object ["a"] [.set .string] [false]) =
+    .ok ⟨.object ["a"] [.set .string] [false],
+      .marked ["top"] (.smap ["a"] [.marked ["e", "l"] (.sset [0, 0] [.s "true", .s "false"])])⟩ := by
+  rfl
+example : convert Env.simple 12 markedSample.unmarkDeep (.object ["a"] [.set .string] [false]) =
+    .ok ⟨.object ["a"] [.set .string] [false],
+      .smap ["a"] [.sset [0, 0] [.s "true", .s "false"]]⟩ := by
+  rfl
+
 /-! ## No panic -/
 
 /-- For a placeholder-free target and a value without unknown parts (nulls and marks are
@@ -548,7 +631,7 @@ theorem roundtrip_number_string_iff (E : Env) (fuel : Nat) (n : Num) :
     simp only [Res.ok.injEq, Value.mk.injEq, Payload.s.injEq, true_and] at hs
     subst hs
     rw [h2] at hm
-    obtain ⟨x, hx, hxm⟩ := Res.map_eq_ok hm
+    obtain ⟨x, hx, hxm⟩ := Convert.Res.map_eq_ok hm
     simp only [Value.mk.injEq, Payload.n.injEq, true_and] at hxm
     subst hxm
     simp [numTextExact, hx, he]
